@@ -107,7 +107,9 @@ RULE = ("one run = one circuit: sender block with 1-4 Events x pipelines of 0-3 
         "generated data, put, toggle, yield) x loop knobs; run indices below 48 walk all Edge "
         "flag combinations (rise x fall x u_rise in {omitted,None,False,True} x u_fall in "
         "{omitted,False,True}) each against all 13x13 (previous, value) pairs over UNDEF, 6 "
-        "falsy and 6 truthy values; non-trivial = at least one delivery consulted a filter; "
+        "falsy and 6 truthy values; 6 % of the DataEdit chains fill one key from two different "
+        "blocks (add_output, copy/rename, add_output); non-trivial = at least one delivery "
+        "consulted a filter; "
         "distinct = hash of (pipeline shapes, per delivery: outcome kind and index of the "
         "deciding filter, race pattern)")
 REACH_EXPECTED = ['veto_mid_pipeline', 'edit_seen_by_later_filter', 'delta_last_passed_matters',
